@@ -586,7 +586,7 @@ class History:
             scl = {k: v for k, v in sc.items() if v is not None}
             if scl != vis:
                 bad = [k for k in set(scl) | set(vis) if scl.get(k) != vis.get(k)]
-                if self.k2_pair(pr, bad):
+                if self.k2_pair(pr, bad, scan=True):
                     self.known.append(("K2", "after reopen, the range scan differs from the newest recovered entries; two live files both hold the key and overlap in timestamp range"))
                 else:
                     self.problem("prop", "after a crash %s the range scan differs from the recovered entries" % where,
@@ -605,14 +605,21 @@ class History:
             else:
                 self.stats["probe_seq_compared"] = self.stats.get("probe_seq_compared", 0) + 1
 
-    def k2_pair(self, pr, keys):
-        """K2's shape for these keys: two live files that BOTH hold one of the keys and whose timestamp
-        ranges overlap (recover.rs cannot order them from key and timestamp ranges alone)"""
+    def k2_pair(self, pr, keys, scan=False):
+        """K2's two shapes for these keys (recover.rs re-levels from key and timestamp ranges alone):
+        (i) two live files that BOTH hold one of the keys and whose timestamp ranges overlap - it cannot
+        order them, a read meets the versions in the wrong order;
+        (ii) the newest recovered version of one of the keys sits in a level >= 1 that recovery built
+        ill-formed (two of its files overlap in key range): the search inside that level is undefined
+        and misses the key (C01's class: known: property=C01 K2, 'levels that are not well-formed');
+        for a range scan (scan=True) ANY version of the key in such a level counts: the level's cursor is
+        no longer sorted and the merge emits that version out of order"""
         names = pr["files"] or []
+        ents = {n: pr["cache"].get(n, ([], None))[0] for n in names}
         for key in keys:
             hold = []
             for n in names:
-                e = pr["cache"].get(n, ([], None))[0]
+                e = ents[n]
                 if any(x[0] == key for x in e):
                     hold.append((min(x[1] for x in e), max(x[1] for x in e)))
             for i in range(len(hold)):
@@ -620,6 +627,28 @@ class History:
                     a, b = hold[i], hold[j]
                     if not (a[1] < b[0] or b[1] < a[0]):
                         return True
+        by_level = {}
+        for lvl, n in pr.get("lvls") or []:
+            if lvl >= 1 and ents.get(n):
+                ks = [x[0] for x in ents[n]]
+                by_level.setdefault(lvl, []).append((min(ks), max(ks), n))
+        ill = set()
+        for lvl, fs in by_level.items():
+            if any(a[0] <= b[1] and b[0] <= a[1] for i, a in enumerate(fs) for b in fs[i + 1:]):
+                ill.add(lvl)
+        if ill:
+            level_of = {n: lvl for lvl, n in pr.get("lvls") or []}
+            for key in keys:
+                best = None
+                for n in names:
+                    for x in ents[n]:
+                        if x[0] == key:
+                            if scan and level_of.get(n) in ill:
+                                return True
+                            if best is None or x[1] > best[0]:
+                                best = (x[1], n)
+                if best is not None and level_of.get(best[1]) in ill:
+                    return True
         return False
 
     def want_probe(self, n_points, opdesc=""):
